@@ -31,7 +31,8 @@ V(cls, r) == [cls |-> cls, type |-> r.type, from |-> r.from, to |-> r.to, num |-
 TConv == LET r == Events[l] IN
   /\ l <= Len(Events) /\ r.e = "Conv" /\ l' = l + 1
   /\ r.type \in DOMAIN Units /\ r.from \in SeqSet(Units[r.type]) /\ r.to \in SeqSet(Units[r.type])
-  /\ r.num \in {"f", "d", "l"} /\ r.entry \in {"run", "static"} /\ r.n > 0 /\ r.seq_n > 0
+  /\ r.num \in {"f", "d", "l"} /\ r.entry \in {"run", "static"} /\ r.n > 0
+  /\ (r.seq_n > 0 \/ (r.seq_n = -1 /\ r.entry = "static"))    \* -1: sequence overloads not instantiated for this compile-time pair (thorough tier, beyond the quick selection)
   /\ LET checks == << <<r.nonfinite = 0, "conv_nonfinite">>,
                       <<r.ulps <= (IF r.affine THEN BudgetAffine ELSE BudgetMul), "conv_ulps">>,
                       <<r.affine \/ r.zero = 1, "conv_zero_not_zero">>,
